@@ -136,8 +136,29 @@ def main(tier_):
                             dict(id="replay", tree=LATTICE_TREE, feat={"openat2": False}, trace=False, calls=[dict(op="open", path=path, oflags=fl)]))
             elif len(samples) < 4 and k[0] == "ok":
                 samples.append(dict(path=path, oflags=fl, kernel=list(k), emulated=list(e)))
+    # (d) argument paths with an interior NUL byte (Rust API: a Path can carry one; a C string cannot): every operation, both backends
+    from checks import race
+    nul_calls = [dict(op="resolve", path="a\x00zz"), dict(op="resolve", path="a/b\x00/../../..", nofollow=True), dict(op="open", path="a/b/c/f\x00x", oflags=O["RDONLY"] | O["NONBLOCK"]),
+                 dict(op="readlink", path="la\x00"), dict(op="mkdir_all", path="a/new\x00/x", mode=0o755), dict(op="create", path="a/nf\x00g", kind="file", mode=0o644),
+                 dict(op="create_file", path="a/cf\x00", oflags=O["RDWR"], mode=0o600), dict(op="remove_file", path="a/b/c/f\x00"), dict(op="remove_all", path="a\x00"),
+                 dict(op="rename", src="a/b/c/f\x00", dst="e/g", flags=0), dict(op="rename", src="a/b/c/f", dst="e/g\x00h", flags=0), dict(op="resolve", path="..\x00/x"), dict(op="resolve", path="\x00")]
+    nres = {}
+    for bname, feat in rootops_static.FEATS:
+        r = run_pv([dict(id="nul|" + bname, tree=race.RACE_TREES["links"], feat=feat, trace=False, calls=nul_calls)], jobs=1, tag="C04n")[0]
+        if r.get("status") != "ok" or "results" not in r["out"][0]:
+            raise ToolError("NUL case failed: %s" % json.dumps(r)[:300])
+        nres[bname] = ([norm(x) for x in r["out"][0]["results"]], sorted((d["p"], d["n"]) for d in r["final"]["dents"]))
+    for ci, call in enumerate(nul_calls):
+        stats["nul_cases"] += 1
+        k, e = nres["kernel"][0][ci], nres["emulated"][0][ci]
+        if k != e:
+            v.violation(dict(check="backend-equivalence", family="nul-byte", op=call["op"], kernel=list(k), emulated=list(e)),
+                        "C04/%s(%r) [path with an interior NUL byte]: kernel backend %s, emulated backend %s" % (call["op"], call.get("path") or (call.get("src"), call.get("dst")), k, e),
+                        dict(id="replay", tree=race.RACE_TREES["links"], feat={"openat2": True}, trace=False, calls=[call]))
+    if nres["kernel"][1] != nres["emulated"][1]:
+        v.violation(dict(check="backend-equivalence", family="nul-byte", op="final-tree"), "C04: after the operations with NUL bytes in their paths the two backends left different trees", {})
     rc = v.finish()
-    cov = dict(states=cova["states"] + data["gen"]["distinct"], transitions=cova["transitions"] + data["gen"]["states"],
+    cov = dict(nul_byte_cases=stats["nul_cases"], states=cova["states"] + data["gen"]["distinct"], transitions=cova["transitions"] + data["gen"]["states"],
                traces_validated_against_impl=stats["lookup_cases"] + stats["mutation_cases"] + stats["mkrm_cases"] + stats["lattice_cases"], samples=samples or cova["samples"][:2],
                evaluations=2 * (stats["lookup_cases"] + stats["mutation_cases"] + stats["mkrm_cases"] + stats["lattice_cases"]),
                distinct_nontrivial=stats["mutation_cases"] + stats["mkrm_cases"] + stats["lattice_cases"],
